@@ -322,6 +322,9 @@ func (e *specEnv) ident(name string) specVal {
 		return sv
 	}
 	fn := e.fr.fn
+	if alt := renamedLoopVar(fn, name); alt != "" {
+		name = alt
+	}
 	_, carried := e.over[name]
 	if e.loop != nil && !carried {
 		// (a loop-carried variable of the loop whose invariant is evaluated is resolved through e.over below:
@@ -1195,6 +1198,16 @@ func (e *specEnv) call(c SCall) specVal {
 		case "called", "errSeen":
 			callee := e.resolveFuncRef(c.Args[0])
 			if callee == nil {
+				// a function-typed parameter of the function under contract: calls through it are observed too
+				if pid, ok := c.Args[0].(SIdent); ok {
+					for _, p := range e.fr.fn.Params {
+						if _, isSig := under(p.Type()).(*types.Signature); isSig && p.Name() == pid.Name {
+							return specVal{V: Sc{e.st.ghostGet(id.Name + "#param:" + p.Name())}, T: types.Typ[types.Bool]}
+						}
+					}
+				}
+			}
+			if callee == nil {
 				panic(specErr("%s(): cannot resolve function %v", id.Name, c.Args[0]))
 			}
 			return specVal{V: Sc{e.st.ghostGet(id.Name + "#" + FuncKey(callee))}, T: types.Typ[types.Bool]}
@@ -1556,4 +1569,121 @@ func (e *specEnv) loadOfNamedCell(x ssa.Value, name string) (Val, types.Type, *s
 		return nil, nil, nil, false
 	}
 	return cell, elemTypeOfAddr(al), al, true
+}
+
+// ---- loop-carried variables are bound by position, like parameters ----
+// LOCK.json records, per function under contract and per loop, the named variables the loop carries (header phis) with
+// their types. A name that a contract uses, that no longer occurs in the function, and that was the i-th carried
+// variable of its type in loop n denotes the variable that is at that place now (a renamed local keeps its clauses).
+
+func loopVarSignature(fn *ssa.Function) map[string][]string {
+	if len(fn.Blocks) == 0 {
+		return nil
+	}
+	loops := (&FnVC{}).findLoops(fn)
+	out := map[string][]string{}
+	for _, li := range loops {
+		var names []string
+		for _, ins := range li.header.Instrs {
+			phi, ok := ins.(*ssa.Phi)
+			if !ok {
+				break
+			}
+			if phi.Comment == "" || phi.Comment == "rangeindex" || strings.HasPrefix(phi.Comment, "range") {
+				continue
+			}
+			names = append(names, phi.Comment+"|"+phi.Type().String())
+		}
+		if len(names) > 0 {
+			out[fmt.Sprint(li.ordinal)] = names
+		}
+	}
+	return out
+}
+
+func nameOccursIn(fn *ssa.Function, name string) bool {
+	for _, p := range fn.Params {
+		if p.Name() == name {
+			return true
+		}
+	}
+	for _, p := range fn.FreeVars {
+		if p.Name() == name {
+			return true
+		}
+	}
+	for _, b := range fn.Blocks {
+		for _, ins := range b.Instrs {
+			switch x := ins.(type) {
+			case *ssa.Phi:
+				if x.Comment == name {
+					return true
+				}
+			case *ssa.Alloc:
+				if x.Comment == name {
+					return true
+				}
+			case *ssa.DebugRef:
+				if id, ok := x.Expr.(*ast.Ident); ok && id.Name == name {
+					return true
+				}
+			}
+		}
+	}
+	return false
+}
+
+var renamedCache = map[string]string{}
+
+func renamedLoopVar(fn *ssa.Function, name string) string {
+	key := FuncKey(fn) + "\x00" + name
+	if r, ok := renamedCache[key]; ok {
+		return r
+	}
+	res := ""
+	defer func() { renamedCache[key] = res }()
+	locked := loadLock().LoopVars[FuncKey(fn)]
+	if locked == nil || nameOccursIn(fn, name) {
+		return ""
+	}
+	cur := loopVarSignature(fn)
+	for ord, vars := range locked {
+		for i, nt := range vars {
+			parts := strings.SplitN(nt, "|", 2)
+			if parts[0] != name {
+				continue
+			}
+			// position among the carried variables of the same type
+			pos := 0
+			for _, other := range vars[:i] {
+				if strings.HasSuffix(other, "|"+parts[1]) {
+					pos++
+				}
+			}
+			k := 0
+			for _, cnt := range cur[ord] {
+				cp := strings.SplitN(cnt, "|", 2)
+				if cp[1] != parts[1] {
+					continue
+				}
+				if k == pos {
+					// only a name that the locked function did not have: otherwise it is another variable
+					taken := false
+					for _, vs := range locked {
+						for _, o := range vs {
+							if strings.HasPrefix(o, cp[0]+"|") {
+								taken = true
+							}
+						}
+					}
+					if !taken {
+						res = cp[0]
+						return res
+					}
+				}
+				k++
+			}
+		}
+	}
+	return ""
 }
